@@ -46,6 +46,15 @@ def lin(t: Term) -> Optional[Dict]:
                     c = x.get(1, 0)
                     return {k: v * c for k, v in y.items()}
             return None
+        if op in ("LShift", "RShift", "FloorDiv") and is_const(unsnap(r)) and isinstance(cval(unsnap(r)), int) and not isinstance(cval(unsnap(r)), bool):
+            # x << k is x * 2**k; x >> k and x // c are exact when every coefficient of x is a multiple of the divisor (2n >> 1, (n << 1) // 2)
+            k_ = cval(unsnap(r))
+            a = lin(l)
+            if a is not None and op == "LShift" and 0 <= k_ <= 64:
+                return {key: v * (1 << k_) for key, v in a.items()}
+            d_ = (1 << k_) if op == "RShift" and 0 <= k_ <= 64 else k_ if op == "FloorDiv" and k_ > 0 else None
+            if a is not None and d_ is not None and all(v % d_ == 0 for v in a.values()) and any(key != 1 for key in a):
+                return {key: v // d_ for key, v in a.items()}
     if t.op == "len":
         return {("len", unsnap(t.args[0]).uid): 1}
     return {("atom", t.uid): 1}
